@@ -19,11 +19,38 @@ def attribute_group(rep, g, corr, exact, impl):
                 if f['id'] == 'N1':
                     return 'N1'
     for c in g.cases:
+        if exact.get(c.cid) is True:
+            continue
+        if gen.near_degenerate(c.lhs, c.rhs, c.prec):
+            for f in findings:
+                if f['id'] == 'N6':
+                    return 'N6'
+        if gen.rounded_parallel(c.lhs, c.rhs, c.prec):
+            for f in findings:
+                if f['id'] == 'N5':
+                    return 'N5'
+    for c in g.cases:
         if impl[c.cid][0] == 'budget':
             for f in findings:
                 if f['id'] == 'N2' and exact.get(c.cid) is not True:
                     return 'N2'
     return None
+
+
+def pairing_variant(rng, a, b):
+    """the four trait impls: with probability 1/3 both operands are cut down to their first polygon and each is passed
+    either as a Polygon or as a one-element MultiPolygon (so that every relational law is also exercised on
+    Polygon x Polygon, Polygon x MultiPolygon and MultiPolygon x Polygon calls)"""
+    pa, pb = fmt.polys_of(a), fmt.polys_of(b)
+    if not pa or not pb or rng.random() >= 0.34:
+        # operands that already are single polygons still get a random wrapper
+        if len(pa) == 1 and rng.random() < 0.3:
+            a = ('P', pa[0]) if a[0] == 'M' else ('M', [pa[0]])
+        if len(pb) == 1 and rng.random() < 0.3:
+            b = ('P', pb[0]) if b[0] == 'M' else ('M', [pb[0]])
+        return a, b
+    wrap = lambda p: ('P', p) if rng.random() < 0.5 else ('M', [p])  # noqa: E731
+    return wrap(pa[0]), wrap(pb[0])
 
 
 def run_rel(rep, pid, tier, seed, builder, weights, npairs, rule_text, stage2=None, third=False):
@@ -33,6 +60,8 @@ def run_rel(rep, pid, tier, seed, builder, weights, npairs, rule_text, stage2=No
     for i in range(npairs):
         a, b, meta = gen.mixed(rng, weights)
         meta = dict(meta, tier=tier)
+        if pid != 'C07':
+            a, b = pairing_variant(rng, a, b)
         g = relprops.Group('g%d' % i, meta['family'], meta)
         if third:
             c3, _, _ = gen.FAMILIES[meta['family'] if meta['family'] in ('rect', 'oct', 'lat', 'gp') else 'oct'](rng)
@@ -118,6 +147,20 @@ def run_rel(rep, pid, tier, seed, builder, weights, npairs, rule_text, stage2=No
                        'calls': [dict(c.to_json(), implementation=repr(impl[c.cid])[:800]) for c in g.cases[:12]],
                        'replay_cmd': 'feed the "line" of each call to harness/target/release/vh'})
     elif corr_bad:
+        # search for a failing input among the calls on which implementation and model disagree: is the implementation's
+        # result still the region the call names (the model's result being that region)?
+        okc = [c for c in corr_bad if impl[c.cid][0] == 'ok' and model[c.cid][0] == 'ok']
+        si = bc.run_scenes([bc.scene01_line(c.cid, c, impl[c.cid][1]) for c in okc])
+        sm = bc.run_scenes([bc.scene01_line(c.cid, c, model[c.cid][1]) for c in okc])
+        wrong = [c for c in okc if si.get(c.cid) == 'false' and sm.get(c.cid) == 'true' and exact.get(c.cid) is not False]
+        if wrong:
+            c = min(wrong, key=lambda c: c.n_edges())
+            rep.violation('%s: on %d call(s) where implementation and model disagree the implementation does not return the named '
+                          'region (the model, which takes the paths the property compares, does): %s' % (pid, len(wrong), c.cid),
+                          {'case': c.to_json(), 'implementation': repr(impl[c.cid])[:1500], 'model': repr(model[c.cid])[:1500],
+                           'oracle': 'cert01 (exact, every point) false on the implementation\'s result, true on the model\'s',
+                           'replay_cmd': "printf '%%s\\n' '%s' | harness/target/release/vh" % c.line()})
+            return
         c = corr_bad[0]
         rep.violation('correspondence model <-> implementation broken on %d call(s); every law still holds on the implementation\'s '
                       'results' % len(corr_bad),
